@@ -181,17 +181,16 @@ class Run(RunBase):
                 return op["key"] in u["objects"]
             if k == "add_list":
                 return all(x in u["objects"] for x in op["keys"])
-            if k == "add_new":
-                ids = [op["id"]] + list(op.get("incoming_ids", []))
-                return len(ids) == len(set(ids))  # an object whose own ids repeat is not part of the universe
             return True
         if k == "add_net":
             return op["key"] in u["nets"] and m.net_empty()
         if k == "replace_net":
             if op["key"] not in u["nets"]:
                 return False
-            new = {i for i, _, _ in net_ids(u["nets"][op["key"]])}
-            return not (new & set(m.ids_of_kind(*OBST_KINDS)))
+            all_ids = [i for i, _, _ in net_ids(u["nets"][op["key"]])]
+            new = set(all_ids)
+            # a network that repeats an id internally is only ever offered to add_objects (which must refuse it)
+            return len(new) == len(all_ids) and not (new & set(m.ids_of_kind(*OBST_KINDS)))
         if k == "remove":
             ids = op["ids"]
             if len(set(ids)) != len(ids) or not ids:
@@ -253,6 +252,12 @@ class Run(RunBase):
         """Run one add; `triples` are the ids it brings.  Returns 'ok' / 'rejected'."""
         ids = [t[0] for t in triples]
         collide = sorted(set(ids) & set(self.m.contained))
+        internal = sorted({i for i in ids if ids.count(i) > 1})
+        if internal and not collide:
+            # the object itself brings one id twice (e.g. an incoming element with the id of its intersection):
+            # accepting it would put two contained objects on one id
+            self.probe("object-with-internally-repeated-id")
+            collide = internal
         try:
             do_add()
             exc = None
@@ -328,7 +333,7 @@ class Run(RunBase):
         cur = set(self.m.contained)
         for o in objs:
             ids = [t[0] for t in ids_of(o["kind"], o["spec"])]
-            if set(ids) & cur:
+            if set(ids) & cur or len(set(ids)) != len(ids):
                 collided = o
                 break
             cur |= set(ids)
@@ -569,7 +574,7 @@ def _gen_adder(rng, run):
         if kind == "intersection":
             g2 = yield {"op": "gen"}
             op["incoming_ids"] = [g2]
-        if rng.chance(0.15) or not run.enabled(op):
+        if rng.chance(0.15):
             continue  # generated but never used: the id must still never come back
         yield op
 
@@ -656,7 +661,7 @@ class C09(Property):
                        "remove-intersection-single", "lanelet-removal-takes-sign-or-light",
                        "lanelet-removal-leaves-shared-sign", "replace-overlapping-ids", "restart-pickle",
                        "restart-deepcopy", "remove-non-contained-obstacle", "gen-between-gen-and-add", "erase-network",
-                       "restart-file"]
+                       "restart-file", "object-with-internally-repeated-id"]
     assumptions = [
         "interleaving granularity is one public call (the library has no threads)",
         "list-form adds are sequential adds: the accepted prefix before a refused element stays (documented relaxation)",
@@ -686,6 +691,11 @@ class C09(Property):
             if kind == "intersection":
                 pool = [x for x in range(1, MAX_ID + 1) if x != i]
                 extra["incoming_ids"] = sorted(rng.sample(pool, rng.randint(1, 2)))
+                r = rng.random()
+                if r < 0.08:
+                    extra["incoming_ids"] = [extra["incoming_ids"][0], extra["incoming_ids"][0]]  # same id twice
+                elif r < 0.16:
+                    extra["incoming_ids"][0] = i  # an incoming element with the id of its intersection
             objects[f"o{j}"] = {"kind": kind, "spec": obj_spec(kind, i, extra)}
         nets = {}
         for j in range(rng.randint(1, 3)):
@@ -702,6 +712,8 @@ class C09(Property):
             for _ in range(ni):
                 iid = pool.pop()
                 incs = sorted(pool.pop() for _ in range(rng.randint(1, 2)))
+                if rng.chance(0.1):
+                    incs[0] = lan_ids[0]  # an incoming element sharing its id with a lanelet of the same network
                 net["intersections"].append(obj_spec("intersection", iid, {"incoming_ids": incs}))
             nets[f"n{j}"] = net
         return {"objects": objects, "nets": nets}
